@@ -128,4 +128,59 @@ theorem c14_exported_layout_canon (known : List Bytes) (l : Layout)
     simp [pinstOk, exportInst, this]
   · simp [exportLayout, List.all_map, List.all_eq_true]
 
+/-- a raw cell list with layout views only, every cell after the cells it uses, i16 layer/purpose numbers -/
+def LibOk : List Bytes → List Cell → Prop
+  | _, [] => True
+  | known, c :: rest => c.abs = none ∧
+      (∀ lay, c.layout = some lay → (∀ i ∈ lay.insts, known.contains i.cell = true) ∧ lay.elems.all elemOkI = true) ∧
+      LibOk (c.name :: known) rest
+
+theorem exportCells_msgOk (tbl : LayerTbl) : ∀ (cs : List Cell) (known : List Bytes), LibOk known cs →
+    ∃ pcs, exportCells tbl cs = .ok pcs ∧ MsgOk known pcs := by
+  intro cs
+  induction cs with
+  | nil => intro known _; exact ⟨[], rfl, trivial⟩
+  | cons c r ih =>
+    intro known h
+    obtain ⟨ha, hl, hr⟩ := h
+    obtain ⟨pcs, he, hm⟩ := ih (c.name :: known) hr
+    refine ⟨⟨c.name, c.layout.map exportLayout, none⟩ :: pcs, by simp [exportCells, exportCell, ha, he], ?_⟩
+    refine ⟨rfl, ?_, hm⟩
+    intro lay hlay
+    cases hc : c.layout with
+    | none => simp [hc] at hlay
+    | some l0 =>
+      simp only [hc, Option.map_some, Option.some.injEq] at hlay
+      subst hlay
+      exact c14_exported_layout_canon known l0 (hl l0 hc).1 (hl l0 hc).2
+
+theorem libOk_instsKnown : ∀ (cs : List Cell) (known : List Bytes), LibOk known cs → InstsKnown known cs := by
+  intro cs
+  induction cs with
+  | nil => intro _ _; trivial
+  | cons c r ih =>
+    intro known h
+    exact ⟨fun lay hlay => (h.2.1 lay hlay).1, ih _ h.2.2⟩
+
+/-- **whole library (layout views, listed dependencies-first): the exported message is a fixed point** —
+    export succeeds, the message imports, and exporting what was imported gives exactly the same message -/
+theorem c14_library_export_fixed_point (tbl : LayerTbl) (l : Lib) (hu : l.units ≤ 2) (h : LibOk [] l.cells) :
+    ∃ p l', exportLib tbl l = .ok p ∧ importLib p = .ok l' ∧ exportLib tbl l' = .ok p := by
+  obtain ⟨pcs, he, hm⟩ := exportCells_msgOk tbl l.cells [] h
+  have hlisted : ListedBeforeUsers l.cells := by
+    intro i hi d hd
+    have := listed_of_instsKnown [] l.cells (by simpa using libOk_instsKnown _ _ h) i hi d (by simpa using hd)
+    simpa using this
+  have hexp : exportLib tbl l = .ok ⟨l.name, (l.units : Int), pcs⟩ := by
+    rw [c14_reexport_keeps_cell_order tbl l hlisted (by omega)]; simp [he]
+  obtain ⟨l', hi, he'⟩ := c14_message_roundtrip_layouts tbl ⟨l.name, (l.units : Int), pcs⟩ (by constructor <;> simp <;> omega) hm
+  exact ⟨_, l', hexp, hi, he'⟩
+
+/-- non-vacuity: two cells, the second instantiates the first; shapes on two layers with a repeated key -/
+example : LibOk [] [⟨[65], some ⟨[65], [], [⟨some [110], 1, 0, .rect ⟨5, 5⟩ ⟨0, 0⟩⟩, ⟨none, 2, 0, .path [⟨0, 0⟩, ⟨4, 0⟩] 2⟩,
+      ⟨none, 1, 0, .polygon [⟨0, 0⟩, ⟨3, 0⟩, ⟨0, 3⟩]⟩], [([116], ⟨1, 1⟩)]⟩, none⟩,
+    ⟨[66], some ⟨[66], [⟨[105], [65], ⟨3, 4⟩, true, some 90⟩], [], []⟩, none⟩] := by
+  refine ⟨rfl, ?_, rfl, ?_, trivial⟩
+  · intro lay h; cases h; exact ⟨by simp, by decide⟩
+  · intro lay h; cases h; exact ⟨by simp, by decide⟩
 end L21.RawProto
